@@ -597,6 +597,27 @@ class Evaluator:
       return
     if isinstance(target, (ast.Tuple, ast.List)):
       n = len(target.elts)
+      stars = [i for i, t in enumerate(target.elts) if isinstance(t, ast.Starred)]
+      if len(stars) == 1:
+        # a, *rest, z = val
+        k = stars[0]
+        after = n - k - 1
+        known = val.args if val.op in ('tuple', 'list') and not any(a.op == 'star' for a in val.args) else None
+        for i, t in enumerate(target.elts):
+          if i < k:
+            p = known[i] if known is not None else self.subscript(val, const(i), None)
+            self.assign(t, p, scope)
+          elif i == k:
+            if known is not None:
+              p = T('list', *known[k:len(known) - after])
+            else:
+              p = self.subscript(val, T('slice', const(k), const(-after) if after else NONE, NONE), None)
+            self.assign(t.value, p, scope)
+          else:
+            j = i - n            # negative index from the end
+            p = known[j] if known is not None else self.subscript(val, const(j), None)
+            self.assign(t, p, scope)
+        return
       parts = self.destructure(val, n)
       for t, p in zip(target.elts, parts):
         if isinstance(t, ast.Starred):
@@ -1315,6 +1336,19 @@ class Evaluator:
     sc = Scope(kind, defscope, locals_=(fi.locals if fi else _local_names(node)), fi=fi, label=key)
     self.scopes[sc.id] = sc
     sc.vars.update(bound)
+    # lists of an enclosing scope that this function mutates in place (x.append(...) on a free variable): work on a
+    # local alias so that branch merges inside the body see the mutation, and write the final value back afterwards
+    captured = []
+    if not isinstance(node, ast.Lambda):
+      for nm in _mutated_names(node.body):
+        if nm in sc.vars or nm in sc.locals:
+          continue
+        ds = defscope
+        while ds is not None and nm not in ds.vars:
+          ds = ds.parent
+        if ds is not None and ds.vars[nm].op == 'list':
+          sc.vars[nm] = ds.vars[nm]
+          captured.append((nm, ds))
     self._active.append(key)
     fr = _Frame(key, len(self.path))
     self.frames.append(fr)
@@ -1333,6 +1367,9 @@ class Evaluator:
       self.loop_ctl = saved_ctl
       self.frames.pop()
       self._active.pop()
+    for nm, ds in captured:
+      if nm in sc.vars:
+        ds.vars[nm] = sc.vars[nm]
     self.last_scope = sc
     return self._fold_returns(fr.returns)
 
